@@ -137,3 +137,12 @@ Fixpoint run_cli_lines (o : opts) (now : Z) (s : state) (ls : list (option (list
 
 Definition run_cli (o : opts) (now : Z) (bs : bytes) : res (list (list bytes)) :=
   run_cli_lines o now (mkState [] (counters_new now (update_s o))) (text_lines bs) [].
+
+(** TCP source: connect_and_read_tcp holds ONE table across connections; each connection is a
+    fresh read_lines call (fresh counters) over the bytes that connection delivered.  Refused
+    attempts and the 5 s pauses deliver nothing and are therefore not events of this model. *)
+Fixpoint run_tcp_table (o : opts) (now : Z) (t : table) (conns : list bytes) : res table :=
+  match conns with
+  | [] => Ok t
+  | bs :: rest => t' <- read_lines o now t bs ;; run_tcp_table o now t' rest
+  end.
